@@ -1,8 +1,204 @@
 import PyPhysim.Model.Proto
-open PyPhysim.Proto
+import PyPhysim.Model.C03
+import PyPhysim.Model.C03Disc
+open PyPhysim.Proto PyPhysim.C03
 
--- stub: replaced when the C03 model is written
+/-! Line-protocol driver of the C03 model, instantiated at Gaussian rationals (exact). -/
+
+structure GRat where
+  re : Rat
+  im : Rat
+  deriving BEq
+
+instance : Zero GRat := ⟨⟨0, 0⟩⟩
+instance : Add GRat := ⟨fun a b => ⟨a.re + b.re, a.im + b.im⟩⟩
+instance : Mul GRat := ⟨fun a b => ⟨a.re * b.re - a.im * b.im, a.re * b.im + a.im * b.re⟩⟩
+
+def showQ (r : Rat) : String := if r.den = 1 then toString r.num else toString r.num ++ "/" ++ toString r.den
+def showG (g : GRat) : String := if g.im == 0 then showQ g.re else showQ g.re ++ "_" ++ showQ g.im
+
+def parseG? (s : String) : Option GRat :=
+  match s.splitOn "_" with
+  | [a] => (parseRat? a).map (fun r => ⟨r, 0⟩)
+  | [a, b] => do let x ← parseRat? a; let y ← parseRat? b; pure ⟨x, y⟩
+  | _ => none
+
+def parseRow? (s : String) : Option (List GRat) := (fields s ",").mapM parseG?
+/-- rows separated by `;` (an empty string is one empty row) -/
+def parseSig? (s : String) : Option (List (List GRat)) := (s.splitOn ";").mapM parseRow?
+
+def showRow (r : List GRat) : String := showList showG r
+def showSig (y : List (List GRat)) : String := showList showRow y ";"
+
+/-- the scripted fading process shared with the Python harness -/
+def procS (seed : Nat) : Proc GRat := fun link pos i r t =>
+  let z := seed + 7919 * link + 104729 * pos + 1299709 * i + 15485863 * r + 32452843 * t
+  let re : Int := (((z * 48271) / 128) % 13 : Nat) - 6
+  let im : Int := (((z * 69621) / 8) % 11 : Nat) - 5
+  ⟨(re : Rat), (im : Rat)⟩
+
+/-- the scripted exact "FFT" kernel shared with the Python harness:
+    `F(v, N)[k] = Σ_{d < min(|v|, N)} v[d] * tw(k, d, N)` -/
+def fftS : Fft GRat := fun v N k =>
+  ((v.take N).zipIdx.map (fun vd =>
+      let d := vd.2
+      let tw : GRat := ⟨(((k * d) % N + 1 : Nat) : Rat), ((((k + 2 * d) % 3 : Nat) : Int) - 1 : Int)⟩
+      vd.1 * tw)).foldl (· + ·) 0
+
+def parseOptInt? (s : String) : Option (Option Int) :=
+  if s == "N" then some none else s.toInt?.map some
+
+def parseSel? (s : String) : Option Sel :=
+  if s == "all" then some .all
+  else if s.startsWith "i=" then (parseIntList? (s.drop 2).toString).map .idx
+  else if s.startsWith "s=" then
+    match ((s.drop 2).toString.splitOn ".") with
+    | [a, b, c] => do
+        let a ← parseOptInt? a; let b ← parseOptInt? b; let c ← parseOptInt? c
+        pure (.slice ⟨a, b, c⟩)
+    | _ => none
+  else none
+
+def parseAnt? (s : String) : Option (Option (Nat × Nat)) :=
+  if s == "0" then some none else
+  match s.splitOn "x" with
+  | [a, b] => do let a ← a.toNat?; let b ← b.toNat?; pure (some (a, b))
+  | _ => none
+
+def showIR (ant : Option (Nat × Nat)) (ir : IR GRat) : String :=
+  let (nr, nt) := match ant with | none => (1, 1) | some d => d
+  let cell (f : Nat → Nat → Nat → GRat) : String :=
+    showList (fun r => showList (fun t => showRow (tab ir.n (f r t))) (List.range nt) "/") (List.range nr) ";"
+  let sparse := showList cell ir.vals "|"
+  let denseLen := match ir.delays.getLast? with | some l => l + 1 | none => 0
+  let denseS := showList (fun j =>
+      showList (fun r => showList (fun t =>
+        showRow (tab ir.n (fun k => match (ir.denseAt r t k)[j]? with | some v => v | none => ⟨99999, 99999⟩)))
+        (List.range nt) "/") (List.range nr) ";") (List.range denseLen) "|"
+  "ir:n=" ++ toString ir.n ++ ":d=" ++ showList toString ir.delays ++ ":v=" ++ sparse ++ ":D=" ++ denseS
+
+structure Setup where
+  seed : Nat
+  jakes : Bool
+  ant : Option (Nat × Nat)
+  taps : List (Nat × GRat)
+
+def parseSetup? (toks : List String) : Option Setup := do
+  let seed ← (← kv toks "seed").toNat?
+  let jakes ← (← kv toks "jakes").toNat?
+  let ant ← parseAnt? (← kv toks "ant")
+  let delays ← parseNatList? (← kv toks "delays")
+  let amps ← parseRow? (← kv toks "amps")
+  if delays.length ≠ amps.length then none
+  pure ⟨seed, jakes == 1, ant, delays.zip amps⟩
+
+def isOp (t : String) : Bool :=
+  t.startsWith "tx:" || t.startsWith "fx:" || t.startsWith "sw:" || t.startsWith "pl:" || t == "ir"
+
+def showE (e : PyErr) : String := "error:" ++ toString e
+
+/-- run SuChannel ops (a TdlChannel is a SuChannel that never gets a path loss) -/
+def runSu (su : Setup) : Su GRat → List String → List String
+  | _, [] => []
+  | c, op :: rest =>
+    if op == "ir" then
+      match c.lastIR with
+      | .ok ir => showIR su.ant ir :: runSu su c rest
+      | .error e => [showE e]
+    else if op.startsWith "sw:" then
+      runSu su { c with tdl := { c.tdl with switched := op == "sw:1" } } rest |>.cons "ok"
+    else if op.startsWith "pl:" then
+      let a := (op.drop 3).toString
+      if a == "none" then (runSu su { c with pl := none } rest).cons "ok"
+      else match parseG? a with
+        | some s => (runSu su { c with pl := some s } rest).cons "ok"
+        | none => ["bad-op"]
+    else if op.startsWith "tx:" then
+      match parseSig? (op.drop 3).toString with
+      | none => ["bad-op"]
+      | some x => match c.corrupt (procS su.seed) x with
+        | .ok (c', y) => ("y=" ++ showSig y) :: runSu su c' rest
+        | .error e => [showE e]
+    else if op.startsWith "fx:" then
+      match (op.drop 3).toString.splitOn ":" with
+      | [f, s, x] => match f.toNat?, parseSel? s, parseSig? x with
+        | some fft, some sel, some x => match c.corruptFreq (procS su.seed) fftS x fft sel with
+          | .ok (c', y) => ("y=" ++ showSig y) :: runSu su c' rest
+          | .error e => [showE e]
+        | _, _, _ => ["bad-op"]
+      | _ => ["bad-op"]
+    else ["bad-op"]
+
+def parseMuSig? (s : String) : Option (List (List (List GRat))) := (s.splitOn "|").mapM parseSig?
+
+def showMuOut (y : List (List (List GRat))) : String := "y=" ++ showList showSig y "|"
+
+def runMu (su : Setup) : Mu GRat → List String → List String
+  | _, [] => []
+  | c, op :: rest =>
+    if op == "ir" then
+      match (List.range (c.nRx * c.nTx)).mapM (fun l => c.lastIR (l / c.nTx) (l % c.nTx)) with
+      | .ok irs => showList (showIR su.ant) irs " & " :: runMu su c rest
+      | .error e => [showE e]
+    else if op.startsWith "sw:" then (runMu su (c.setSwitched (op == "sw:1")) rest).cons "ok"
+    else if op.startsWith "pl:" then
+      match parseSig? (op.drop 3).toString with
+      | none => ["bad-op"]
+      | some m => match c.setPathloss m with
+        | .ok c' => (runMu su c' rest).cons "ok"
+        | .error e => [showE e]
+    else if op.startsWith "tx:" then
+      match parseMuSig? (op.drop 3).toString with
+      | none => ["bad-op"]
+      | some x => match c.corrupt (procS su.seed) x with
+        | .ok (c', y) => showMuOut y :: runMu su c' rest
+        | .error e => [showE e]
+    else if op.startsWith "fx:" then
+      match (op.drop 3).toString.splitOn ":" with
+      | [f, s, x] => match f.toNat?, parseSel? s, parseMuSig? x with
+        | some fft, some sel, some x => match c.corruptFreq (procS su.seed) fftS x fft sel with
+          | .ok (c', y) => showMuOut y :: runMu su c' rest
+          | .error e => [showE e]
+        | _, _, _ => ["bad-op"]
+      | _ => ["bad-op"]
+    else ["bad-op"]
+
+def showInts (l : List Int) : String := showList toString l
+
 def handle : List String → String
+  | "su" :: toks =>
+    match parseSetup? toks, (kv toks "link").bind String.toNat? with
+    | some su, some link =>
+      " # ".intercalate (runSu su { tdl := Tdl.init su.taps su.ant su.jakes link, pl := none } (toks.filter isOp))
+    | _, _ => "bad-op"
+  | "mu" :: toks =>
+    match parseSetup? toks, (kv toks "nrx").bind String.toNat?, (kv toks "ntx").bind String.toNat? with
+    | some su, some nrx, some ntx =>
+      " # ".intercalate (runMu su (Mu.init nrx ntx su.taps su.ant su.jakes) (toks.filter isOp))
+    | _, _, _ => "bad-op"
+  | ["disc", ts, ds, ps] =>
+    match parseRat? ts, parseRatList? ds, parseRatList? ps with
+    | some ts, some ds, some ps =>
+      let (d, p) := discretize ds ps ts
+      "d=" ++ showInts d ++ " p=" ++ showList showQ p
+    | _, _, _ => "bad-op"
+  | ["round", x] => match parseRat? x with | some x => toString (roundHalfEven x) | none => "bad-op"
+  | ["slice", a, b, c, n] =>
+    match parseOptInt? a, parseOptInt? b, parseOptInt? c, n.toNat? with
+    | some a, some b, some c, some n =>
+      match sliceIndices ⟨a, b, c⟩ n, selPos (.slice ⟨a, b, c⟩) n, blockSize (.slice ⟨a, b, c⟩) n with
+      | .ok (i0, i1, i2), .ok ps, .ok bs =>
+        "ind=" ++ showInts [i0, i1, i2] ++ " pos=" ++ showList toString ps ++ " bs=" ++ toString bs
+      | .error e, _, _ => showE e
+      | _, .error e, _ => showE e
+      | _, _, .error e => showE e
+    | _, _, _, _ => "bad-op"
+  | ["idx", l, n] =>
+    match parseIntList? l, n.toNat? with
+    | some l, some n => match selPos (.idx l) n with
+      | .ok ps => "pos=" ++ showList toString ps
+      | .error e => showE e
+    | _, _ => "bad-op"
   | _ => "bad-op"
 
 def main : IO Unit := runDriver handle
